@@ -14,18 +14,20 @@ def to_replay(events):
     script = []
     for e in events:
         if e["k"] in ("reserve", "mapregion", "identity"):
-            script.append({"op": e["k"], "size": vc.limbs(e["size"]), "f": vc.limbs(e.get("f", [0]))})
+            script.append({"op": e["k"], "size": vc.limbs(e["size"]), "f": vc.limbs(e.get("f", [0])), "budget": e.get("budget", 0)})
     return {"kind": "c07", "script": script}
 
 
 def write_case(path, rep):
     with open(path, "w") as f:
-        f.write(json.dumps({"script": [{"op": o["op"], "size": vlib.w64(o["size"]), "f": vlib.w64(o["f"])}
+        f.write(json.dumps({"script": [{"op": o["op"], "size": vlib.w64(o["size"]), "f": vlib.w64(o["f"]), "budget": o.get("budget", 0)}
                                        for o in rep["script"]]}) + "\n")
 
 
 def brief(e):
     b = {k: v for k, v in e.items() if k != "pairs"}
+    if e.get("pairs"):
+        b["first_pair"] = [hex(vc.limbs(x)) for x in e["pairs"][0]]
     if "pairs" in e:
         b["npairs"] = len(e["pairs"])
     for k in ("size", "addr", "cur", "top", "f", "page"):
@@ -77,7 +79,7 @@ def run(ctx):
     q = ctx.quick
     ctx.assumptions += [
         "the reservation cursor starts at the temporary-mapping page (its initial value in addr_space.go); the harness resets it to that value at the start of every case",
-        "region-mapping requests that are satisfiable but need more than 48 pages are not generated (they would legitimately issue up to 2^52 map calls); huge sizes are generated for plain reservations and for region requests that have to fail",
+        "the recording map seam has a failure budget K chosen by the case (it fails on call K+1): satisfiable huge region sizes (2^32 pages and more, up to the remaining address space) are generated with small K, and the mapper must then have issued exactly the first K+1 consecutive pairs and return the seam's error; after a seam failure the statement does not say whether the reservation is kept, so later regions are only required to lie below the last SUCCESSFUL one",
         "trusted Go: the recording map seam and the event logger in harness/vmm/c07_addrspace_test.go (no expected results in them)",
         "a request that fits is not required to succeed (the statement only constrains successes and non-fitting requests)",
     ]
@@ -85,32 +87,58 @@ def run(ctx):
                 "enumerated over the 64-bit boundary sizes; leg T draws seeded random sequences (small, page+-1, near-cursor, near-2^64 "
                 "sizes); a case is distinct by its full event sequence and non-trivial when at least one reservation succeeded")
     d = ctx.spec_dir("vmm")
-    tier = "Quick" if q else "Full"
-    raw = os.path.join(ctx.work, "c07_cases_raw.ndjson")
-    ctx.model_check(d, "MCAddrSpace", "MCAddrSpace6" + tier, timeout=900)
+    import concurrent.futures
+    pool = concurrent.futures.ThreadPoolExecutor(max_workers=3 if q else 1)   # quick: JVM start-up dominates, overlap the legs
+    futs = [pool.submit(ctx.model_check, d, "MCAddrSpace", "MCAddrSpace6Quick" if q else "MCAddrSpace6Full", timeout=900,
+                        workers=6 if q else None)]
+    if not q:
+        futs.append(pool.submit(ctx.model_check, d, "MCAddrSpace", "MCAddrSpace6Budgets", timeout=900))
     # (MCAddrSpace6Res4.cfg: plain reservations, sequences of 4, 312 639 states - measured once, too slow for the tier budget)
-    ctx.model_check(d, "MCAddrSpace", "MCAddrSpace64" + tier, env={"CASES": raw}, timeout=900, workers=4 if q else 8)
-    bugs = ["RoundUpWraps", "DecrementBeforeTest"] if q else \
-           ["RoundUpWraps", "NoRoundUp", "RoundDown", "DecrementBeforeTest", "ReturnOldCursor", "PageCountUnrounded", "SameFrame"]
+    bugs = ["RoundUpWraps", "PageCountTruncated"] if q else \
+           ["RoundUpWraps", "NoRoundUp", "RoundDown", "DecrementBeforeTest", "ReturnOldCursor", "PageCountUnrounded",
+            "PageCountTruncated", "SameFrame"]
     for b in bugs:
-        ctx.expect_model_violation(d, "MCAddrSpace", "MCAddrSpaceBug_" + b, timeout=300, workers=4)
+        futs.append(pool.submit(ctx.expect_model_violation, d, "MCAddrSpace", "MCAddrSpaceBug_" + b, timeout=300, workers=2 if q else 4))
+    emit_cfgs = ["MCAddrSpace64Quick"] if q else ["MCAddrSpace64Full2", "MCAddrSpace64Full3"]
+    cases = os.path.join(ctx.work, "c07_cases.ndjson")
+    nbeh = 0
+    with open(cases, "w") as allc:
+        for cfg in emit_cfgs:
+            raw = os.path.join(ctx.work, "c07_raw_%s.ndjson" % cfg)
+            ctx.model_check(d, "MCAddrSpace", cfg, env={"CASES": raw}, timeout=900, workers=4 if q else 8)
+            part = raw + ".clean"
+            total, used = vc.decode_cases(raw, part)
+            ctx.cov["legs"][cfg]["behaviours_emitted"] = total
+            ctx.cov["legs"][cfg]["replayed"] = used
+            nbeh += used
+            with open(part) as f:
+                allc.write(f.read())
     if not q:
         apalache(ctx, d)
 
-    cases = os.path.join(ctx.work, "c07_cases.ndjson")
-    total, used = vc.decode_cases(raw, cases)
-    ctx.cov["legs"]["MCAddrSpace64" + tier]["behaviours_emitted"] = total
-    ctx.cov["legs"]["MCAddrSpace64" + tier]["replayed"] = used
     trg = os.path.join(ctx.work, "c07_trace_g.ndjson")
     vc.go(ctx, HARNESS, "TestVerifC07Cases", {"CASES": cases, "TRACE_OUT": trg})
     trt = os.path.join(ctx.work, "c07_trace_t.ndjson")
-    vc.go(ctx, HARNESS, "TestVerifC07Random", {"TRACE_OUT": trt, "NTRACES": 300 if q else 6000})
-    vc.judge(ctx, "AddrSpaceTrace", "AddrSpaceTraceC07", [("G-behaviours", trg), ("T-random", trt)],
-             to_replay, nontrivial, brief, parallel=4 if q else None)
+    vc.go(ctx, HARNESS, "TestVerifC07Random", {"TRACE_OUT": trt, "NTRACES": 250 if q else 6000})
+    traces = [("G-behaviours", trg), ("T-random", trt)]
+    if q:                   # one batch of monitor processes instead of two
+        both = os.path.join(ctx.work, "c07_trace_gt.ndjson")
+        with open(both, "w") as g:
+            for _, pth in traces:
+                with open(pth) as f:
+                    g.write(f.read())
+        traces = [("G-behaviours+T-random", both)]
+    vc.judge(ctx, "AddrSpaceTrace", "AddrSpaceTraceC07", traces,
+             to_replay, nontrivial, brief, parallel=6 if q else None)
+    for f in futs:
+        f.result()          # a Broken raised in an overlapped M leg surfaces here
+    pool.shutdown()
     ctx.cov["exhaustive"] = not ctx.violations
-    ctx.cov["explanation"] = ("exhaustive = every behaviour of the TLC scope (all sequences of <= %d requests over the 15 boundary "
-                              "sizes x 3 request kinds, 64-bit words) was replayed verbatim on the real code; the 6-bit model "
-                              "additionally covers every size exhaustively at the design level" % (2 if q else 3))
+    ctx.cov["explanation"] = ("exhaustive = every behaviour of the TLC 64-bit scope (%s; 3 request kinds, region mappers with seam "
+                              "budgets) was replayed verbatim on the real code (%d behaviours); the 6-bit model additionally covers every "
+                              "size exhaustively at the design level"
+                              % ("sequences of 2 over 11 boundary/huge sizes" if q else
+                                 "sequences of 2 over 20 boundary/huge sizes with budgets 1 and 40, sequences of 3 over 11 sizes", nbeh))
 
 
 def replay(ctx, path):
